@@ -13,6 +13,12 @@ drv_aes: script lines (all byte strings in hex, "-" = empty)
   dec <opts> <key> <ct>
       output:  pt <hex>   or  panic <...>
 
+  big <opts> <key> <prelen> <ptlen> <ptseed> <spare> <tail>
+      LARGE inputs without megabytes of hex: pre = prelen bytes 0xA5, pt[i] = byte(i*167 + seed*13 + (i>>8)*31);
+      same layout and calls as `enc`.
+      output:  ct <len> <fnv1a-64 of ct, hex> in <same|changed> arr <same|changed@idx:hex..> rt <ok|len hash>
+               darr <same|changed@..> conc ok
+
   <opts> = "-" or comma separated list of  cbc | cfb | iv:<hex>   (applied in order, as NewCipher does)
 
 The block functions are the Lean FIPS-197 AES of Got.Spec.Aes (independent of crypto/aes).
@@ -69,6 +75,54 @@ def runEnc (opts : List Opt) (key pre pt spare tail : List UInt8) : String :=
         joinSp ["ct", hexOf ct, "in", inSame, "arr", sameOr arr (st1.arr 0),
                 "rt", hexOf (out2.bytes st2), "darr", sameOr darr (st2.arr 0), "conc", "ok"]
 
+/-- deterministic plaintext of the `big` lines (the harness and the oracle use the same formula) -/
+def genPt (n seed : Nat) : List UInt8 :=
+  (List.range n).map fun i => UInt8.ofNat (i * 167 + seed * 13 + (i >>> 8) * 31)
+
+def fnv64 (l : List UInt8) : UInt64 :=
+  l.foldl (fun h b => (h ^^^ b.toUInt64) * 0x100000001b3) 0xcbf29ce484222325
+
+def hex64 (h : UInt64) : String :=
+  String.ofList ((List.range 16).map fun i => hexChar ((h >>> (UInt64.ofNat (4 * (15 - i)))).toNat % 16))
+
+def firstDiff : List UInt8 → List UInt8 → Nat → Option Nat
+  | [], [], _ => none
+  | a :: as, b :: bs, i => if a = b then firstDiff as bs (i + 1) else some i
+  | _, _, i => some i
+
+def changedOr (a b : List UInt8) : String :=
+  match firstDiff a b 0 with
+  | none => "same"
+  | some i => s!"changed@{i}:{hexOf ((b.drop i).take 32)}"
+
+def runBig (opts : List Opt) (key : List UInt8) (prelen ptlen seed : Nat) (spare tail : List UInt8) : String :=
+  match newCipher key opts, Got.Spec.Aes.mkKey key with
+  | .error p, _ => showPanic p
+  | .ok _, none => showPanic .keySize
+  | .ok c, some k =>
+    let E := Got.Spec.Aes.encryptBlock k
+    let D := Got.Spec.Aes.decryptBlock k
+    let pre := List.replicate prelen (0xA5 : UInt8)
+    let pt := genPt ptlen seed
+    let arr := pre ++ pt ++ spare ++ tail
+    let st : Store := [arr]
+    let input : Slice := { id := 0, off := pre.length, len := pt.length, cap := pt.length + spare.length }
+    match c.encrypt E st input with
+    | .error p => showPanic p
+    | .ok (st1, out) =>
+      let ct := out.bytes st1
+      let inSame := if input.bytes st1 = pt then "same" else "changed"
+      let darr := pre ++ ct ++ spare ++ tail
+      let dst : Store := [darr]
+      let dinput : Slice := { id := 0, off := pre.length, len := ct.length, cap := ct.length + spare.length }
+      match c.decrypt E D dst dinput with
+      | .error p => showPanic p
+      | .ok (st2, out2) =>
+        let rt := out2.bytes st2
+        let rtS := if rt = pt then "ok" else s!"{rt.length} {hex64 (fnv64 rt)}"
+        joinSp ["ct", toString ct.length, hex64 (fnv64 ct), "in", inSame, "arr", changedOr arr (st1.arr 0),
+                "rt", rtS, "darr", changedOr darr (st2.arr 0), "conc", "ok"]
+
 def runDec (opts : List Opt) (key ct : List UInt8) : String :=
   match newCipher key opts, Got.Spec.Aes.mkKey key with
   | .error p, _ => showPanic p
@@ -86,6 +140,11 @@ def step (_ : Unit) (line : String) : Unit × String :=
     match parseOpts o, bytes? key, bytes? pre, bytes? pt, bytes? spare, bytes? tail with
     | some o, some key, some pre, some pt, some spare, some tail => ((), runEnc o key pre pt spare tail)
     | _, _, _, _, _, _ => ((), "bad-op")
+  | ["big", o, key, prelen, ptlen, seed, spare, tail] =>
+    match parseOpts o, bytes? key, parseNat? prelen, parseNat? ptlen, parseNat? seed, bytes? spare, bytes? tail with
+    | some o, some key, some prelen, some ptlen, some seed, some spare, some tail =>
+      ((), runBig o key prelen ptlen seed spare tail)
+    | _, _, _, _, _, _, _ => ((), "bad-op")
   | ["dec", o, key, ct] =>
     match parseOpts o, bytes? key, bytes? ct with
     | some o, some key, some ct => ((), runDec o key ct)
